@@ -52,7 +52,7 @@ def main() -> int:
         rc1, o1 = sh(["/venv/bin/python", str(sd / "demo.py")], cwd=wt, env=env)
         out["demo_with_patch"] = "fails (as required)" if rc1 != 0 else "PASSES (seed invalid)"
         if a.baseline:
-            envb = dict(os.environ, J2O_REPO=str(wt))
+            envb = dict(os.environ, J2O_REPO=str(wt), BASELINE_XDIST=os.environ.get("BASELINE_XDIST", "6"))
             rcb, ob = sh(["/venv/bin/python", str(VERIF / "harness/baseline.py"), f"/tmp/junit_seed_{os.getpid()}.xml"],
                          env=envb, timeout=7200)
             out["pinned_suite_with_patch"] = ob.strip().splitlines()[0] if ob.strip() else f"rc={rcb}"
